@@ -1,12 +1,9 @@
-package state_test
+//go:build verif
 
-// Shared KV/session model machine used by C03, C04 and C05 (see verif_c03_test.go for the description).
-//
-// A rapid state machine applies generated histories (KV verbs direct and inside transactions, session
-// create/destroy, tombstone reaps, node/check (de)registration that ends sessions) to a real Store and, in
-// lock-step, to the 150-line reference model of verifstate.KVModel. After EVERY step: the reported verdict
-// equals the model's, every key of the universe reads back equal to the model (all six fields), every prefix
-// listing equals the model's prefix view in order, plus the statement's explicit clauses.
+// Package verifkvm is the shared KV/session model machine of C03, C04 and C05 (overlay-injected). It drives a
+// state.Store through an executor — Store methods directly, or encoded FSM commands — in lock-step with the
+// reference model verifstate.KVModel.
+package verifkvm
 
 import (
 	"bytes"
@@ -26,80 +23,84 @@ import (
 // (kvsSetTxn keeps the holder but takes LockIndex from the request). Upstream's own unedited test
 // TestStateStore_KVSSetCAS pins a ModifyIndex that only results from that reset, so it cannot be repaired
 // without editing the suite: recorded as a known finding.
-const verifKeyLockIndexResetSuffix = "/plain-write-resets-lock-index"
+const KeyLockIndexResetSuffix = "/plain-write-resets-lock-index"
 
-type verifKVMachine struct {
-	p           string // property id: prefix of every finding signature
-	f           verifkit.F
-	c           *verifkit.Case
-	w           *vs.World
-	m           *vs.KVModel
-	lastDeleted map[string]bool // keys deleted at some point (for the non-triviality rule)
-	lockResetKey string
-	mixed        bool
+type Machine struct {
+	P            string // property id: prefix of every finding signature
+	F            verifkit.F
+	C            *verifkit.Case
+	W            *vs.World
+	M            *vs.KVModel
+	LastDeleted  map[string]bool // keys deleted at some point (for the non-triviality rule)
+	LockResetKey string
+	Mixed        bool
+	// Exec applies an op to the system under test (default: vs.Apply on the store).
+	Exec func(op *vs.Op) vs.Result
 
 	// hooks for the properties that build on this machine
-	beforeStep func(x *verifKVMachine, op *vs.Op)
-	afterStep  func(x *verifKVMachine, op *vs.Op, res vs.Result)
+	BeforeStep func(x *Machine, op *vs.Op)
+	AfterStep  func(x *Machine, op *vs.Op, res vs.Result)
 }
 
-func verifKVNew(p string, f verifkit.F, c *verifkit.Case, s *state.Store) *verifKVMachine {
+func New(p string, f verifkit.F, c *verifkit.Case, s *state.Store) *Machine {
 	if s == nil {
 		s = state.NewStateStore(nil)
 	}
 	m := vs.NewKVModel()
-	key := p + verifKeyLockIndexResetSuffix
+	key := p + KeyLockIndexResetSuffix
 	if verifkit.For(p).IsKnown(key) {
 		// known finding excluded by construction: the model follows the defective behaviour and counts each time it matters
 		m.QuirkPlainWriteResetsLockIndex = true
 		m.OnQuirk = func() { c.KnownHit(key); c.Label("known:plain-write-resets-lock-index") }
 	}
-	return &verifKVMachine{p: p, f: f, c: c, w: vs.NewWorld(s), m: m, lastDeleted: map[string]bool{}, lockResetKey: key}
+	x := &Machine{P: p, F: f, C: c, W: vs.NewWorld(s), M: m, LastDeleted: map[string]bool{}, LockResetKey: key}
+	x.Exec = func(op *vs.Op) vs.Result { return vs.Apply(x.W.Store, op) }
+	return x
 }
 
 
 
 // syncSessions makes the model's session set equal to the store's: sessions are an INPUT of the KV model
 // (who is alive), their effect on keys (release/delete) is what the model predicts.
-func (x *verifKVMachine) syncSessions(idx uint64) (ended []string) {
+func (x *Machine) syncSessions(idx uint64) (ended []string) {
 	live := map[string]*structs.Session{}
-	_, ss, _ := x.w.Store.SessionList(nil, nil)
+	_, ss, _ := x.W.Store.SessionList(nil, nil)
 	for _, s := range ss {
 		live[s.ID] = s
 	}
 	var ids []string
-	for id := range x.m.Sess {
+	for id := range x.M.Sess {
 		if live[id] == nil {
 			ids = append(ids, id)
 		}
 	}
 	sort.Strings(ids)
 	for _, id := range ids {
-		x.m.SessionEnded(idx, id)
+		x.M.SessionEnded(idx, id)
 		ended = append(ended, id)
 	}
 	for id, s := range live {
-		if x.m.Sess[id] == nil {
-			x.m.Sess[id] = &vs.MSess{ID: id, Behavior: string(s.Behavior), Node: s.Node}
+		if x.M.Sess[id] == nil {
+			x.M.Sess[id] = &vs.MSess{ID: id, Behavior: string(s.Behavior), Node: s.Node}
 		}
 	}
 	return ended
 }
 
-func (x *verifKVMachine) step(op *vs.Op) {
-	f, c := x.f, x.c
+func (x *Machine) Step(op *vs.Op) {
+	f, c := x.F, x.C
 	before := map[string]*vs.MEntry{}
-	for k, e := range x.m.KV {
+	for k, e := range x.M.KV {
 		ce := *e
 		before[k] = &ce
 	}
-	if x.beforeStep != nil {
-		x.beforeStep(x, op)
+	if x.BeforeStep != nil {
+		x.BeforeStep(x, op)
 	}
-	res := vs.Apply(x.w.Store, op)
+	res := x.Exec(op)
 	defer func() {
-		if x.afterStep != nil {
-			x.afterStep(x, op, res)
+		if x.AfterStep != nil {
+			x.AfterStep(x, op, res)
 		}
 	}()
 	p := op.P
@@ -109,24 +110,24 @@ func (x *verifKVMachine) step(op *vs.Op) {
 	check := func(v vs.Verdict) {
 		gotErr := res.Err != nil
 		if gotErr != v.Err || (!gotErr && res.OK != v.OK) {
-			c.Violation(f, x.p+"/verdict/"+op.Kind, "op %s: store reported %s, model expects ok=%v err=%v", op.Desc, res, v.OK, v.Err)
+			c.Violation(f, x.P+"/verdict/"+op.Kind, "op %s: store reported %s, model expects ok=%v err=%v", op.Desc, res, v.OK, v.Err)
 		}
 	}
 	switch op.Kind {
 	case vs.KVSet:
-		check(x.m.Set(idx, p.KV.Key, p.KV.Value, p.KV.Flags))
+		check(x.M.Set(idx, p.KV.Key, p.KV.Value, p.KV.Flags))
 	case vs.KVCAS:
-		check(x.m.CAS(idx, p.KV.Key, p.KV.Value, p.KV.Flags, p.KV.ModifyIndex))
+		check(x.M.CAS(idx, p.KV.Key, p.KV.Value, p.KV.Flags, p.KV.ModifyIndex))
 	case vs.KVDelete:
-		check(x.m.Delete(idx, p.KV.Key))
+		check(x.M.Delete(idx, p.KV.Key))
 	case vs.KVDeleteCAS:
-		check(x.m.DeleteCAS(idx, p.KV.Key, p.CASIndex))
+		check(x.M.DeleteCAS(idx, p.KV.Key, p.CASIndex))
 	case vs.KVDeleteTree:
-		check(x.m.DeleteTree(idx, p.KV.Key))
+		check(x.M.DeleteTree(idx, p.KV.Key))
 	case vs.KVLock:
-		check(x.m.Lock(idx, p.KV.Key, p.KV.Value, p.KV.Flags, p.KV.Session))
+		check(x.M.Lock(idx, p.KV.Key, p.KV.Value, p.KV.Flags, p.KV.Session))
 	case vs.KVUnlock:
-		check(x.m.Unlock(idx, p.KV.Key, p.KV.Value, p.KV.Flags, p.KV.Session))
+		check(x.M.Unlock(idx, p.KV.Key, p.KV.Value, p.KV.Flags, p.KV.Session))
 	case vs.Txn, vs.TxnRO:
 		x.stepTxn(op, res)
 	case vs.Reap:
@@ -140,25 +141,25 @@ func (x *verifKVMachine) step(op *vs.Op) {
 			c.Label("session-ended-by-cascade")
 		}
 	}
-	if x.mixed {
-		x.mixed = false
+	if x.Mixed {
+		x.Mixed = false
 		for _, k := range vs.Keys {
-			_, got, _ := x.w.Store.KVSGet(nil, k, nil)
-			x.m.AdoptEntry(k, got)
+			_, got, _ := x.W.Store.KVSGet(nil, k, nil)
+			x.M.AdoptEntry(k, got)
 		}
 		before = nil
 	}
 	x.compare(op, before)
 }
 
-func (x *verifKVMachine) stepTxn(op *vs.Op, res vs.Result) {
-	f, c := x.f, x.c
+func (x *Machine) stepTxn(op *vs.Op, res vs.Result) {
+	f, c := x.F, x.C
 	for _, t := range op.P.Txn {
 		if t.KV == nil {
 			// A transaction with catalog/session verbs: KV verbs may depend on in-transaction cascades (a node
 			// delete ends a session and frees a key for a later lock). The sequential KV model does not predict
 			// those; the model is re-synchronised from the store afterwards and the invariants of C04/C05 judge it.
-			x.mixed = true
+			x.Mixed = true
 			c.Label("txn-mixed")
 			if len(res.Errors) > 0 {
 				c.Label("txn-aborted")
@@ -168,7 +169,7 @@ func (x *verifKVMachine) stepTxn(op *vs.Op, res vs.Result) {
 			return
 		}
 	}
-	mc := x.m.Clone()
+	mc := x.M.Clone()
 	var failed []int
 	var expectReads [][]string
 	var expectSnap [][]*vs.MEntry // model entries right after the op ran (results reflect the state at op time)
@@ -206,7 +207,7 @@ func (x *verifKVMachine) stepTxn(op *vs.Op, res vs.Result) {
 	}
 	for _, i := range failed {
 		if !gotFailed[i] {
-			c.Violation(f, x.p+"/txn-verb-should-fail/"+string(op.P.Txn[i].KV.Verb), "txn %s: op #%d (%s) must fail per model but store reported %s", op.Desc, i, vs.DescribeTxnOp(op.P.Txn[i]), res)
+			c.Violation(f, x.P+"/txn-verb-should-fail/"+string(op.P.Txn[i].KV.Verb), "txn %s: op #%d (%s) must fail per model but store reported %s", op.Desc, i, vs.DescribeTxnOp(op.P.Txn[i]), res)
 			return
 		}
 	}
@@ -217,7 +218,7 @@ func (x *verifKVMachine) stepTxn(op *vs.Op, res vs.Result) {
 				isModelFail = isModelFail || j == i
 			}
 			if !isModelFail {
-				c.Violation(f, x.p+"/txn-verb-should-succeed/"+string(op.P.Txn[i].KV.Verb), "txn %s: op #%d (%s) failed in store (%s) but model accepts it", op.Desc, i, vs.DescribeTxnOp(op.P.Txn[i]), res)
+				c.Violation(f, x.P+"/txn-verb-should-succeed/"+string(op.P.Txn[i].KV.Verb), "txn %s: op #%d (%s) failed in store (%s) but model accepts it", op.Desc, i, vs.DescribeTxnOp(op.P.Txn[i]), res)
 				return
 			}
 		}
@@ -233,7 +234,7 @@ func (x *verifKVMachine) stepTxn(op *vs.Op, res vs.Result) {
 		if len(op.P.Txn) > 1 {
 			c.Label("txn-multi-committed")
 		}
-		*x.m = *mc
+		*x.M = *mc
 	}
 	// compare KV results with the model for pure-KV transactions (result positions are then predictable)
 	if hasNonKV {
@@ -254,16 +255,16 @@ func (x *verifKVMachine) stepTxn(op *vs.Op, res vs.Result) {
 		}
 	}
 	if len(res.Results) != len(want) {
-		c.Violation(f, x.p+"/txn-result-count", "txn %s: %d results, model expects %d (%v)", op.Desc, len(res.Results), len(want), want)
+		c.Violation(f, x.P+"/txn-result-count", "txn %s: %d results, model expects %d (%v)", op.Desc, len(res.Results), len(want), want)
 		return
 	}
 	for i, r := range res.Results {
 		if r.KV == nil {
-			c.Violation(f, x.p+"/txn-result-kind", "txn %s: result #%d is not a KV result", op.Desc, i)
+			c.Violation(f, x.P+"/txn-result-kind", "txn %s: result #%d is not a KV result", op.Desc, i)
 			return
 		}
 		if r.KV.Key != want[i] {
-			c.Violation(f, x.p+"/txn-result-key", "txn %s: result #%d has key %q, model expects %q", op.Desc, i, r.KV.Key, want[i])
+			c.Violation(f, x.P+"/txn-result-key", "txn %s: result #%d has key %q, model expects %q", op.Desc, i, r.KV.Key, want[i])
 			return
 		}
 		me := wantE[i]
@@ -276,7 +277,7 @@ func (x *verifKVMachine) stepTxn(op *vs.Op, res vs.Result) {
 			bad = bad || !bytes.Equal(r.KV.Value, me.Value)
 		}
 		if bad {
-			if c.Violation(f, x.p+"/txn-result-content", "txn %s: result #%d %s differs from model %+v", op.Desc, i, vs.CanonJSON(r.KV), *me) {
+			if c.Violation(f, x.P+"/txn-result-content", "txn %s: result #%d %s differs from model %+v", op.Desc, i, vs.CanonJSON(r.KV), *me) {
 				continue
 			}
 			return
@@ -285,85 +286,85 @@ func (x *verifKVMachine) stepTxn(op *vs.Op, res vs.Result) {
 }
 
 // compare reads every key and every prefix back and checks the statement's explicit clauses.
-func (x *verifKVMachine) compare(op *vs.Op, before map[string]*vs.MEntry) {
-	f, c := x.f, x.c
-	s := x.w.Store
+func (x *Machine) compare(op *vs.Op, before map[string]*vs.MEntry) {
+	f, c := x.F, x.C
+	s := x.W.Store
 	for _, k := range vs.Keys {
 		_, got, err := s.KVSGet(nil, k, nil)
 		if err != nil {
-			c.Violation(f, x.p+"/get-error", "KVSGet(%q): %v", k, err)
+			c.Violation(f, x.P+"/get-error", "KVSGet(%q): %v", k, err)
 			continue
 		}
-		if d := x.m.CompareEntry(k, got); d != "" {
-			key := x.p+"/state/" + x.m.FirstDiffField(k, got) + "/after=" + op.Kind
-			if me := x.m.KV[k]; me != nil && got != nil && got.LockIndex == 0 && me.LockIndex > 0 && got.Session == me.Session &&
+		if d := x.M.CompareEntry(k, got); d != "" {
+			key := x.P+"/state/" + x.M.FirstDiffField(k, got) + "/after=" + op.Kind
+			if me := x.M.KV[k]; me != nil && got != nil && got.LockIndex == 0 && me.LockIndex > 0 && got.Session == me.Session &&
 				(op.Kind == vs.KVSet || op.Kind == vs.KVCAS || op.Kind == vs.Txn) {
-				key = x.lockResetKey
+				key = x.LockResetKey
 			}
 			if c.Violation(f, key, "after %s: %s", op.Desc, d) {
-				x.m.AdoptEntry(k, got)
+				x.M.AdoptEntry(k, got)
 			}
 			continue
 		}
 		// explicit clauses of the statement, asserted directly on the store's data
 		if b := before[k]; b != nil && got != nil && op.Kind != vs.Txn {
 			if got.CreateIndex != b.Create {
-				c.Violation(f, x.p+"/create-index-changed", "after %s: key %q CreateIndex %d -> %d while the key existed", op.Desc, k, b.Create, got.CreateIndex)
+				c.Violation(f, x.P+"/create-index-changed", "after %s: key %q CreateIndex %d -> %d while the key existed", op.Desc, k, b.Create, got.CreateIndex)
 			}
 			same := bytes.Equal(b.Value, got.Value) && b.Flags == got.Flags && b.Session == got.Session && b.LockIndex == got.LockIndex
 			if same && got.ModifyIndex != b.Modify {
-				c.Violation(f, x.p+"/noop-advanced-modify-index", "after %s: key %q unchanged but ModifyIndex %d -> %d", op.Desc, k, b.Modify, got.ModifyIndex)
+				c.Violation(f, x.P+"/noop-advanced-modify-index", "after %s: key %q unchanged but ModifyIndex %d -> %d", op.Desc, k, b.Modify, got.ModifyIndex)
 			}
 			if !same && got.ModifyIndex != op.Idx {
-				c.Violation(f, x.p+"/change-without-modify-index", "after %s: key %q changed but ModifyIndex=%d, step index=%d", op.Desc, k, got.ModifyIndex, op.Idx)
+				c.Violation(f, x.P+"/change-without-modify-index", "after %s: key %q changed but ModifyIndex=%d, step index=%d", op.Desc, k, got.ModifyIndex, op.Idx)
 			}
 			if got.LockIndex != b.LockIndex {
 				fresh := b.Session == "" && got.Session != ""
-				quirk := x.m.QuirkPlainWriteResetsLockIndex && got.LockIndex == 0 && (op.Kind == vs.KVSet || op.Kind == vs.KVCAS) // known finding, counted by the model
+				quirk := x.M.QuirkPlainWriteResetsLockIndex && got.LockIndex == 0 && (op.Kind == vs.KVSet || op.Kind == vs.KVCAS) // known finding, counted by the model
 				if !(fresh && got.LockIndex == b.LockIndex+1) && !quirk {
-					c.Violation(f, x.p+"/lock-index", "after %s: key %q LockIndex %d -> %d (holder %q -> %q)", op.Desc, k, b.LockIndex, got.LockIndex, b.Session, got.Session)
+					c.Violation(f, x.P+"/lock-index", "after %s: key %q LockIndex %d -> %d (holder %q -> %q)", op.Desc, k, b.LockIndex, got.LockIndex, b.Session, got.Session)
 				}
 			} else if b.Session == "" && got.Session != "" {
-				c.Violation(f, x.p+"/lock-index", "after %s: key %q freshly acquired but LockIndex stayed %d", op.Desc, k, got.LockIndex)
+				c.Violation(f, x.P+"/lock-index", "after %s: key %q freshly acquired but LockIndex stayed %d", op.Desc, k, got.LockIndex)
 			}
 		}
 	}
 	for _, pfx := range vs.Prefixes {
 		_, ents, err := s.KVSList(nil, pfx, nil)
 		if err != nil {
-			c.Violation(f, x.p+"/list-error", "KVSList(%q): %v", pfx, err)
+			c.Violation(f, x.P+"/list-error", "KVSList(%q): %v", pfx, err)
 			continue
 		}
-		want := x.m.Keys(pfx)
+		want := x.M.Keys(pfx)
 		var got []string
 		for _, e := range ents {
 			got = append(got, e.Key)
 		}
 		if fmt.Sprint(got) != fmt.Sprint(want) {
-			c.Violation(f, x.p+"/list-keys", "after %s: KVSList(%q) keys %q, model %q", op.Desc, pfx, got, want)
+			c.Violation(f, x.P+"/list-keys", "after %s: KVSList(%q) keys %q, model %q", op.Desc, pfx, got, want)
 			continue
 		}
 		for _, e := range ents {
-			if d := x.m.CompareEntry(e.Key, e); d != "" {
-				c.Violation(f, x.p+"/list-content", "after %s: KVSList(%q): %s", op.Desc, pfx, d)
+			if d := x.M.CompareEntry(e.Key, e); d != "" {
+				c.Violation(f, x.P+"/list-content", "after %s: KVSList(%q): %s", op.Desc, pfx, d)
 			}
 		}
 	}
 	// non-triviality bookkeeping
 	for k := range before {
-		if x.m.KV[k] == nil {
-			x.lastDeleted[k] = true
+		if x.M.KV[k] == nil {
+			x.LastDeleted[k] = true
 		}
 	}
-	for k := range x.m.KV {
-		if before[k] == nil && x.lastDeleted[k] {
+	for k := range x.M.KV {
+		if before[k] == nil && x.LastDeleted[k] {
 			c.Label("recreate-after-delete")
 			c.NonTrivial()
 		}
 	}
 	switch op.Kind {
 	case vs.KVCAS, vs.KVDeleteCAS:
-		if x.lastDeleted[op.P.KV.Key] {
+		if x.LastDeleted[op.P.KV.Key] {
 			c.Label("cas-after-delete")
 			c.NonTrivial()
 		}
@@ -373,15 +374,15 @@ func (x *verifKVMachine) compare(op *vs.Op, before map[string]*vs.MEntry) {
 			c.NonTrivial()
 		}
 	case vs.KVLock:
-		if op.P.KV.Session != "" && x.m.Sess[op.P.KV.Session] == nil {
+		if op.P.KV.Session != "" && x.M.Sess[op.P.KV.Session] == nil {
 			c.Label("lock-with-dead-session")
 			c.NonTrivial()
 		}
 	}
 }
 
-func verifKVRun(p string, f verifkit.F, c *verifkit.Case, setup func(x *verifKVMachine), next func(x *verifKVMachine, i int) *vs.Op) {
-	x := verifKVNew(p, f, c, nil)
+func Run(p string, f verifkit.F, c *verifkit.Case, setup func(x *Machine), next func(x *Machine, i int) *vs.Op) {
+	x := New(p, f, c, nil)
 	if setup != nil {
 		setup(x)
 	}
@@ -392,12 +393,12 @@ func verifKVRun(p string, f verifkit.F, c *verifkit.Case, setup func(x *verifKVM
 			break
 		}
 		c.Op(op)
-		x.step(op)
+		x.Step(op)
 	}
 }
 
-// verifLoadOps decodes the ops of a replay file.
-func verifLoadOps(t *testing.T, path string) []*vs.Op {
+// LoadOps decodes the ops of a replay file.
+func LoadOps(t testing.TB, path string) []*vs.Op {
 	rp, err := verifkit.LoadReplay(path)
 	if err != nil {
 		t.Fatal(err)
@@ -413,8 +414,8 @@ func verifLoadOps(t *testing.T, path string) []*vs.Op {
 	return ops
 }
 
-func verifOpsFeeder(ops []*vs.Op) func(x *verifKVMachine, i int) *vs.Op {
-	return func(x *verifKVMachine, i int) *vs.Op {
+func OpsFeeder(ops []*vs.Op) func(x *Machine, i int) *vs.Op {
+	return func(x *Machine, i int) *vs.Op {
 		if i >= len(ops) {
 			return nil
 		}
